@@ -177,3 +177,87 @@ theorem addMany_spec (vs : List Nat) (s : St) (hvs : ∀ v ∈ vs, v < 65536) (h
       simp [hvw, this]
 
 end Varint.Bitmap
+
+namespace Varint.Bitmap
+
+theorem mem_wordMembers (base : Nat) : ∀ (n i w x : Nat),
+    x ∈ wordMembers base n i w ↔ ∃ j, j < n ∧ x = base + i + j ∧ w.testBit j = true
+  | 0, i, w, x => by simp [wordMembers]
+  | n + 1, i, w, x => by
+    have ih := mem_wordMembers base n (i + 1) (w / 2) x
+    have h0 : w.testBit 0 = decide (w % 2 = 1) := Nat.testBit_zero w
+    have hs : ∀ j, w.testBit (j + 1) = (w / 2).testBit j := fun j => Nat.testBit_succ w j
+    unfold wordMembers
+    by_cases hw : w % 2 = 1
+    · rw [if_pos hw, List.mem_cons, ih]
+      constructor
+      · rintro (h | ⟨j, hj, hx, hb⟩)
+        · exact ⟨0, by omega, by omega, by simp [h0, hw]⟩
+        · exact ⟨j + 1, by omega, by omega, by rw [hs]; exact hb⟩
+      · rintro ⟨j, hj, hx, hb⟩
+        cases j with
+        | zero => left; omega
+        | succ j => right; exact ⟨j, by omega, by omega, by rw [← hs]; exact hb⟩
+    · rw [if_neg hw, ih]
+      constructor
+      · rintro ⟨j, hj, hx, hb⟩
+        exact ⟨j + 1, by omega, by omega, by rw [hs]; exact hb⟩
+      · rintro ⟨j, hj, hx, hb⟩
+        cases j with
+        | zero => simp [h0, hw] at hb
+        | succ j => exact ⟨j, by omega, by omega, by rw [← hs]; exact hb⟩
+
+theorem mem_membersAux : ∀ (n k b x : Nat),
+    x ∈ membersAux n k b ↔ ∃ j, j < 64 * n ∧ x = 64 * k + j ∧ b.testBit j = true
+  | 0, k, b, x => by simp [membersAux]
+  | n + 1, k, b, x => by
+    have ih := mem_membersAux n (k + 1) (b / 2 ^ 64) x
+    unfold membersAux
+    rw [List.mem_append, mem_wordMembers, ih]
+    constructor
+    · rintro (⟨j, hj, hx, hb⟩ | ⟨j, hj, hx, hb⟩)
+      · refine ⟨j, by omega, by omega, ?_⟩
+        rw [Nat.testBit_mod_two_pow] at hb
+        simpa [hj] using hb
+      · refine ⟨j + 64, by omega, by omega, ?_⟩
+        rw [Nat.testBit_div_two_pow] at hb
+        exact hb
+    · rintro ⟨j, hj, hx, hb⟩
+      by_cases h64 : j < 64
+      · left
+        refine ⟨j, h64, by omega, ?_⟩
+        rw [Nat.testBit_mod_two_pow]
+        simp [h64, hb]
+      · right
+        refine ⟨j - 64, by omega, by omega, ?_⟩
+        rw [Nat.testBit_div_two_pow]
+        have : j - 64 + 64 = j := by omega
+        rw [this]; exact hb
+
+/-- iteration / toArray yields exactly the set bits below 65536 -/
+theorem mem_members (s : St) (x : Nat) : x ∈ members s ↔ x < 65536 ∧ s.bits.testBit x = true := by
+  unfold members
+  rw [mem_membersAux]
+  constructor
+  · rintro ⟨j, hj, hx, hb⟩
+    have : x = j := by omega
+    subst this
+    exact ⟨by omega, hb⟩
+  · rintro ⟨hx, hb⟩
+    exact ⟨x, by omega, by omega, hb⟩
+
+theorem bits_of_members (s : St) (hs : ∀ w, 65536 ≤ w → s.bits.testBit w = false) (w : Nat) :
+    decide (w ∈ members s) = s.bits.testBit w := by
+  by_cases hw : w < 65536
+  · have := mem_members s w
+    by_cases hb : s.bits.testBit w = true
+    · have hm : w ∈ members s := this.mpr ⟨hw, hb⟩
+      simp [hm, hb]
+    · have hm : ¬ w ∈ members s := fun h => hb (this.mp h).2
+      simp [hm]; simpa using hb
+  · have hm : ¬ w ∈ members s := fun h => hw ((mem_members _ w).mp h).1
+    simp [hm, hs w (by omega)]
+
+theorem members_lt (s : St) : ∀ v ∈ members s, v < 65536 := fun v hv => ((mem_members s v).mp hv).1
+
+end Varint.Bitmap
